@@ -298,6 +298,8 @@ func init() {
 	srv("srv-hookfail-req", "the connect hook refuses the connection; the client sends a request all the same and must see the connection closed, nothing may stay behind", SrvCfg{ConnHook: "fail", Conns: [][]Op{{W("ok1"), OpEOF}}})
 	srv("srv-hookfail-2conn", "two refused connections, one sending a request and waiting for the end of stream, one closing at once", SrvCfg{ConnHook: "fail", Conns: [][]Op{{W("ok1"), OpEOF}, {OpClose}}})
 	srv("srv-hookok-seq", "accepting connect hook, two sequential requests", SrvCfg{ConnHook: "ok", Conns: [][]Op{{W("ok1"), R("ok1"), W("perr2"), R("perr2"), OpClose}}})
+	srv("srv-2conn-cold", "two connections send their first request concurrently into a server whose codec caches are cold (meant for the build that instruments the codec package too)", SrvCfg{Conns: [][]Op{{W("ok1"), R("ok1"), OpClose}, {W("ok2"), R("ok2"), OpClose}}})
+	srv("srv-3conn-cold", "three connections send their first request concurrently, cold codec caches", SrvCfg{Conns: [][]Op{{W("ok1"), R("ok1"), OpClose}, {W("terr2"), R("terr2"), OpClose}, {W("ok3"), R("ok3"), OpClose}}})
 	srv("srv-two-seq", "two sequential requests on one connection", SrvCfg{Conns: [][]Op{{W("ok1"), R("ok1"), W("terr2"), R("terr2"), OpClose}}})
 	srv("srv-pipelined", "two requests in one write, then read both", SrvCfg{Conns: [][]Op{{{K: "2", IDs: []string{"ok1", "perr2"}}, R("ok1", "perr2"), OpClose}}})
 	srv("srv-3pipelined-close", "three requests written back to back, then close without reading anything (requests still queued in the connection when it ends)", SrvCfg{Conns: [][]Op{{W("ok1"), W("ok2"), W("ok3"), OpClose}}})
